@@ -142,3 +142,139 @@ SPECS["C11"] = dict(
     trusted_base=["Rust std sort_by_key (stable) and slice::binary_search (modelled, not verified)"],
     assumptions=["64-bit usize"],
 )
+
+# ---- HCOBS (C01 / C02 / C07): families hcobs_enc / hcobs_dec (harness/src/fam_hcobs.rs, lean/Woodpile/Driver/Hcobs.lean).
+# `lean_modules` / `theorems` are filled in when the proof tracks land.
+_HCOBS_TB = ["OwningIovec is modelled by the abstract Pipe (Woodpile.Pipe); slice boundaries are not part of these properties",
+             "reference codec in harness/src/fam_hcobs/refcodec.rs (written from the format description, literal constants 252 / 64008 / 253)"]
+_HCOBS_ASSUME = ["64-bit usize; allocation failure (OOM abort) not modelled",
+                 "arena reads (anchored input) use a well-behaved in-memory reader; faulty readers are C17's subject"]
+_HCOBS_NOTE = ("Trusted: Lean kernel + 3 standard axioms; the correspondence harness and its generators (enumerated small cases with "
+               "tiny limits through hook H2, random cases incl. production limits through the public API); the abstract Pipe as the "
+               "specification of OwningIovec (C03/C04 tie it to the real iovec).")
+
+SPECS["C01"] = dict(
+    title="HCOBS round trip: decoding an encoded message returns the original bytes",
+    lean_modules=["Woodpile.Props.C01"],
+    theorems=[
+        "Woodpile.Props.C01.enc_impl_refines_spec",
+        "Woodpile.Props.C01.enc_split_independent",
+        "Woodpile.Props.C01.dec_impl_refines_spec",
+        "Woodpile.Props.C01.dec_error_split_independent",
+        "Woodpile.Props.C01.dec_error_classified",
+        "Woodpile.Props.C01.dec_total",
+        "Woodpile.Props.C01.dec_feed_reachable",
+        "Woodpile.Props.C01.enc_inv_between_calls",
+        "Woodpile.Props.C01.enc_asserts_unreachable",
+        "Woodpile.Props.C01.enc_finish_asserts_unreachable",
+        "Woodpile.Props.C01.enc_feed_reachable",
+        "Woodpile.Props.C01.enc_refines_spec_drained",
+        "Woodpile.Props.C01.dec_refines_spec_drained",
+        "Woodpile.Props.C01.roundtrip_given_spec",
+        "Woodpile.Props.C01.roundtrip",
+    ],
+    families=[dict(name="hcobs_enc", quick=8000, thorough=200000, search=40000), dict(name="hcobs_dec", quick=8000, thorough=200000, search=40000)],
+    vtags=["C01"],
+    technique="Lean 4 proof (batch spec round trip; incremental encoder/decoder refine the spec for every segmentation) + model/implementation correspondence",
+    design_ref="DESIGN.md section 5, C01; appendix A.1",
+    level_text=("Kernel-checked theorems about the Lean models of the HCOBS encoder/decoder state machines (Woodpile.Hcobs.Enc/Dec over "
+                "the abstract Pipe) and the batch format definition (Woodpile.Hcobs.Spec), for all byte strings, all segmentations, all "
+                "input methods and all limits satisfying Params.Valid. The models are tied to /repo by running the real Encoder/Decoder "
+                "(production limits through the public API, tiny limits through hook H2) and the compiled models on the same enumerated + "
+                "random op sequences (pieces, methods b/c/a/r, drains by slices/bytes/Read) and diffing sizes, drained bytes, exposed "
+                "prefix and final bytes after every call; a direct oracle feeds every encoder output back through the real Decoder "
+                "(one call, and a random segmentation with mixed methods and drains) and compares with the input."),
+    level_note=_HCOBS_NOTE,
+    trusted_base=_HCOBS_TB,
+    assumptions=_HCOBS_ASSUME,
+)
+
+SPECS["C02"] = dict(
+    title="HCOBS output never contains the stuff sequence, is split-independent, bounded",
+    lean_modules=["Woodpile.Props.C02", "Woodpile.Props.C01"],
+    theorems=[
+        "Woodpile.Props.C02.prod_params_valid",
+        "Woodpile.Props.C02.stuff_consts",
+        "Woodpile.Props.C02.no_stuff",
+        "Woodpile.Props.C02.no_stuff_infix",
+        "Woodpile.Props.C02.no_stuff_at",
+        "Woodpile.Props.C02.no_stuff_across_slices",
+        "Woodpile.Props.C02.length_eq",
+        "Woodpile.Props.C02.length_bound",
+        "Woodpile.Props.C02.length_bound_prod",
+        "Woodpile.Props.C01.enc_impl_refines_spec",
+        "Woodpile.Props.C01.enc_split_independent",
+        "Woodpile.Props.C01.dec_impl_refines_spec",
+        "Woodpile.Props.C01.dec_error_split_independent",
+        "Woodpile.Props.C01.dec_error_classified",
+        "Woodpile.Props.C01.dec_total",
+        "Woodpile.Props.C01.dec_feed_reachable",
+        "Woodpile.Props.C01.enc_inv_between_calls",
+        "Woodpile.Props.C01.enc_asserts_unreachable",
+        "Woodpile.Props.C01.enc_finish_asserts_unreachable",
+        "Woodpile.Props.C01.enc_feed_reachable",
+        "Woodpile.Props.C01.enc_refines_spec_drained",
+        "Woodpile.Props.C01.dec_refines_spec_drained",
+        "Woodpile.Props.C01.roundtrip_given_spec",
+        "Woodpile.Props.C01.roundtrip",
+    ],
+    families=[dict(name="hcobs_enc", quick=8000, thorough=200000, search=40000)],
+    vtags=["C02"],
+    technique="Lean 4 proof (no FE FD in Spec.encode, implementation = spec for every segmentation, exact length formula) + model/implementation correspondence",
+    design_ref="DESIGN.md section 5, C02; appendix A.1",
+    level_text=("Kernel-checked theorems on the Lean HCOBS models: the encoded bytes contain no FE FD, equal Spec.encode of the "
+                "concatenated input for every segmentation / method choice / drain schedule, and have length len + 1 + 2*(full chunks). "
+                "Tied to /repo by the hcobs_enc correspondence run; the direct oracle scans drained ++ final bytes of the real encoder "
+                "for FE FD, re-encodes the concatenation in one call and compares, and checks the literal bound "
+                "len + 1 + 2*ceil(len/64008) for the production limits."),
+    level_note=_HCOBS_NOTE,
+    trusted_base=_HCOBS_TB,
+    assumptions=_HCOBS_ASSUME,
+)
+
+SPECS["C07"] = dict(
+    title="HCOBS wire format: canonical encoder, decoder accepts exactly the format",
+    lean_modules=["Woodpile.Props.C07", "Woodpile.Props.C01"],
+    theorems=[
+        "Woodpile.Props.C07.wire_consts",
+        "Woodpile.Props.C07.wire_consts_model",
+        "Woodpile.Props.C07.prod_params_valid",
+        "Woodpile.Props.C07.encode_wellformed",
+        "Woodpile.Props.C07.wellformed_iff_encode",
+        "Woodpile.Props.C07.wf_unique",
+        "Woodpile.Props.C07.decode_iff",
+        "Woodpile.Props.C07.decode_total",
+        "Woodpile.Props.C07.wellformed_decodes",
+        "Woodpile.Props.C07.fuel_irrelevant",
+        "Woodpile.Props.C07.tiny_valid",
+        "Woodpile.Props.C01.enc_impl_refines_spec",
+        "Woodpile.Props.C01.enc_split_independent",
+        "Woodpile.Props.C01.dec_impl_refines_spec",
+        "Woodpile.Props.C01.dec_error_split_independent",
+        "Woodpile.Props.C01.dec_error_classified",
+        "Woodpile.Props.C01.dec_total",
+        "Woodpile.Props.C01.dec_feed_reachable",
+        "Woodpile.Props.C01.enc_inv_between_calls",
+        "Woodpile.Props.C01.enc_asserts_unreachable",
+        "Woodpile.Props.C01.enc_finish_asserts_unreachable",
+        "Woodpile.Props.C01.enc_feed_reachable",
+        "Woodpile.Props.C01.enc_refines_spec_drained",
+        "Woodpile.Props.C01.dec_refines_spec_drained",
+        "Woodpile.Props.C01.roundtrip_given_spec",
+        "Woodpile.Props.C01.roundtrip",
+    ],
+    families=[dict(name="hcobs_enc", quick=8000, thorough=200000, search=40000), dict(name="hcobs_dec", quick=8000, thorough=200000, search=40000)],
+    vtags=["C07"],
+    technique="Lean 4 proof (encoder = canonical encoding, decoder accepts iff well-formed, literal wire constants) + model/implementation correspondence",
+    design_ref="DESIGN.md section 5, C07; appendix A.1",
+    level_text=("Kernel-checked theorems on the Lean HCOBS models: Spec.encode produces the canonical chunk sequence, Spec.decode "
+                "accepts exactly the well-formed chunk sequences ending on a short chunk, the incremental state machines equal the "
+                "batch definitions for every segmentation, the decoder model is total, and the extracted constants are 252 / 64008 / 253 / FE FD. "
+                "Tied to /repo by the hcobs_enc and hcobs_dec correspondence runs (valid encodings from the real encoder, truncation at "
+                "every position, out-of-radix bytes in every header position, over-long lengths, garbage; verdict, error variant and payload, "
+                "bytes); the direct oracle compares the real encoder and decoder with a reference codec written from the format "
+                "description with literal production constants, re-decodes every input in one call, and reports panics."),
+    level_note=_HCOBS_NOTE,
+    trusted_base=_HCOBS_TB,
+    assumptions=_HCOBS_ASSUME,
+)
